@@ -425,6 +425,10 @@ single
       {
         $$ = yr_re_node_create(RE_NODE_CLASS);
 
+        // The class is not released by the parser when this action fails.
+        if ($$ == NULL)
+          yr_free($1);
+
         fail_if($$ == NULL, ERROR_INSUFFICIENT_MEMORY);
 
         $$->re_class = $1;
